@@ -95,6 +95,12 @@ func runC05(idx int, rng *rand.Rand, tier string) []Case {
 		return time.Duration(lrng.Intn(50)) * time.Microsecond
 	}
 	opts := []func(*vegeta.Attacker){vegeta.Client(&http.Client{Transport: rt}), vegeta.Workers(workers), vegeta.MaxWorkers(workers)}
+	growPool := idx%6 == 1
+	if growPool {
+		// one initial worker, the pool grows on demand while the transport keeps workers busy
+		slow = true
+		opts = []func(*vegeta.Attacker){vegeta.Client(&http.Client{Transport: rt}), vegeta.Workers(1), vegeta.MaxWorkers(32)}
+	}
 	shortTimeout := idx%5 == 2
 	if shortTimeout {
 		// the transport does not notice cancellation: exchanges outlast the client timeout
@@ -123,6 +129,18 @@ func runC05(idx int, rng *rand.Rand, tier string) []Case {
 			return inner(t)
 		}
 	}
+	failingTargeter := idx%5 == 3
+	if failingTargeter { // the targets run out: the hits that find none end at once, with an error and a latency
+		var calls int64
+		inner := tr
+		stopAt := int64(50 + rng.Intn(400))
+		tr = func(t *vegeta.Target) error {
+			if atomic.AddInt64(&calls, 1) > stopAt {
+				return vegeta.ErrNoTargets
+			}
+			return inner(t)
+		}
+	}
 	for r := range atk.Attack(tr, vegeta.ConstantPacer{}, dur, "c05") {
 		rs = append(rs, r)
 		if len(rs) >= limit {
@@ -137,8 +155,15 @@ func runC05(idx int, rng *rand.Rand, tier string) []Case {
 		w.U(r.Seq)
 		w.Z(int64(r.Timestamp.Sub(rt.start)))
 		w.Z(int64(r.Latency))
-		w.Z(rt.entry[r.Seq])
-		w.Z(rt.dur[r.Seq])
+		if e, ok := rt.entry[r.Seq]; ok {
+			w.Z(e)
+			w.Z(rt.dur[r.Seq])
+		} else {
+			// the hit never reached the transport (no target): nothing bounds its timestamp from above
+			// but its own end, and its latency must still not be negative
+			w.Z(int64(r.Timestamp.Sub(rt.start)))
+			w.Z(0)
+		}
 	}
 	rt.mu.Unlock()
 	// the consumer that relies on the order: the plot re-orders by sequence number and wants
@@ -153,7 +178,7 @@ func runC05(idx int, rng *rand.Rand, tier string) []Case {
 	pl.Close()
 	w.I(refused)
 	c.Tag = fmt.Sprintf("w%d;nt", workers)
-	c.Dist = fmt.Sprintf("workers%d/slow=%v/timeout=%v/slowtargeter=%v/n%d", workers, slow, shortTimeout, slowTargeter, sizeClass(len(rs)))
+	c.Dist = fmt.Sprintf("workers%d/slow=%v/timeout=%v/slowtargeter=%v/grow=%v/targetsrunout=%v/n%d", workers, slow, shortTimeout, slowTargeter, growPool, failingTargeter, sizeClass(len(rs)))
 	c.Sample = map[string]interface{}{"workers": workers, "results": len(rs), "transport_latency": slow}
 	return []Case{c}
 }
